@@ -120,3 +120,12 @@ Example c13_nonvacuous :
                Req NotifyPortFree; Pop; Req (WakeAt 300); Pop; Adv 60; Req (WakeAt 70); Pop; Pop; Pop]
     = Some (s, evs) /\ runs evs = [20; 50; 70; 100; 300] /\ queue s = [].
 Proof. do 2 eexists. vm_compute. repeat split. Qed.
+
+(** The predicate evaluated on the implementation's observed history
+    ([Exec.holds_on]: both clauses re-checked without the model, and "a run may
+    only abort on a request in the past") is implied by step-by-step agreement
+    of that history with the model ([Exec.check_case]). *)
+From Akita Require Import C13.Exec C13.Link.
+Theorem c13_model_agreement_implies_property : forall c, check_case c = true -> holds_on c = true.
+Proof. exact check_implies_holds. Qed.
+Print Assumptions c13_model_agreement_implies_property.
